@@ -1,9 +1,17 @@
 #!/bin/bash
-# Run once after a fresh restore (offline): builds the harness and warms the Go build cache.
+# Run once after a fresh restore (offline): builds the harness and warms the Go build cache
+# (plain, instrumented and -race builds).
 set -eu
 cd "$(dirname "$0")"
 export GOFLAGS=-mod=mod GOPROXY=off GOSUMDB=off GOTOOLCHAIN=local CGO_ENABLED=0
 mkdir -p bin evidence replays
 (cd h && go build -o ../bin/vcheck ./cmd/vcheck)
-(cd h && go vet ./gen ./spec ./run >/dev/null 2>&1 || true)
-echo "setup ok: $(./bin/vcheck list | tr '\n' ' ')"
+(cd h && go build -o ../bin/vinstr ./cmd/vinstr)
+T=$(mktemp -d "${TMPDIR:-/tmp}/vinstr.XXXXXX")
+trap 'rm -rf "$T"' EXIT
+./bin/vinstr -src /repo -out "$T" -shim "$PWD/h/shim" >bin/vinstr-report.json
+(cd h && go build -tags verif -overlay "$T/overlay.json" -o ../bin/vcheck-i ./cmd/vcheck)
+(cd h && CGO_ENABLED=1 go build -race -o ../bin/racepass ./cmd/racepass)
+# self-tests of the machinery itself (PEG interpreter vs peg's own rendering, defects replay)
+(cd h && go test ./pegi ./defects >bin/../../bin/selftest.log 2>&1) || { cat bin/selftest.log; echo "setup: self-test failed"; exit 1; }
+echo "setup ok: $(./bin/vcheck-i list | tr '\n' ' ')"
